@@ -153,6 +153,8 @@ let run_case oc (c : case) =
   w := with_crash !w (if c.crash < 0 then None else Some (n_of_int c.crash));
   let cfg = config_of c.cfg in
   let base = cfg_base cfg and backup = cfg_backup cfg in
+  let direct = (try List.assoc "direct" c.cfg = "1" with Not_found -> false) in
+  let dbase = cfg_base_unspied cfg in
   let halted = ref false in
   List.iteri (fun i (f : string array) ->
     if not !halted then
@@ -167,7 +169,7 @@ let run_case oc (c : case) =
             | TrRelativeName -> "relative_name"))
             (triggers cfg o !w);
           let before = List.length (dump_trace !w) in
-          let (r, w') = step base backup o !w in
+          let (r, w') = if direct then step_direct dbase o !w else step base backup o !w in
           w := w';
           (match r with
            | MHalt -> halted := true; Printf.fprintf oc "R %d halt\n" i
